@@ -776,6 +776,17 @@ class Analysis:
                 self.note_fresh_block(rhs, rv, ct, st, line)
             elif isint:
                 st.flags.pop(vid, None)
+                # prec = PREC (r) of an mpf parameter: its limb block holds prec + 1 limbs (struct invariant; mpf functions never reallocate)
+                r_ = rhs
+                while isinstance(r_, dict) and r_.get("k") == "cast":
+                    r_ = r_["e"]
+                prec_of = None
+                if isinstance(r_, dict) and r_.get("k") == "member" and r_["field"] == "_mp_prec":
+                    base_ = self.eval(r_["base"], st) if r_["arrow"] else ("obj", self.objlvalue(r_["base"], st))
+                    if base_ and base_[0] == "obj" and base_[1] and len(base_[1]) == 1:
+                        reg_ = next(iter(base_[1]))
+                        if reg_[0] == "P" and reg_[3] == "mpf":
+                            prec_of = reg_
                 if rhs is not None:
                     # copy_u = (zeros > 0 || rp == up): when the flag is false every disjunct is false
                     pairs = frozenset()
@@ -796,6 +807,8 @@ class Analysis:
                 # the variable's old value may appear in other terms: those keep their meaning because terms name
                 # values (symbols), not variables
                 st.env[vid] = t if t is not None else T(0, [(("v", vid, line), 1)])
+                if prec_of is not None:
+                    st.alloc[prec_of] = (tadd(st.env[vid], T(1)), line)
             return
         if k == "member":
             base = self.eval(lhs["base"], st) if lhs["arrow"] else ("obj", self.objlvalue(lhs["base"], st))
